@@ -99,6 +99,7 @@ type pathState struct {
 	forks     [][]dec
 	asserts   int
 	observed  []string
+	assertsSkipped int
 	symbolic  bool // took at least one solver-decided branch
 	knownHit  string
 }
@@ -278,8 +279,15 @@ func (in *interpreter) concretize(fr *frame, t *Term) int64 {
 	m := in.ensureModel()
 	v := sext64(Eval(t, m, p.memo), t.w)
 	p.symbolic = true
-	nexcl := append(append([]int64{}, excl...), v)
-	p.forks = append(p.forks, append(append([]dec{}, p.decisions...), dec{isExcl: true, excl: nexcl}))
+	// fork only if another value is feasible
+	r, _ := in.solver.Check(ts.BNot(eqc(v)), false)
+	if r == Unknown {
+		panic(engineError{"solver returned unknown while enumerating values"})
+	}
+	if r == Sat {
+		nexcl := append(append([]int64{}, excl...), v)
+		p.forks = append(p.forks, append(append([]dec{}, p.decisions...), dec{isExcl: true, excl: nexcl}))
+	}
 	p.decisions = append(p.decisions, dec{v: v})
 	in.solver.Assert(eqc(v))
 	return v
@@ -400,15 +408,24 @@ func ndAssert(fr *frame, args []value) value {
 	if len(args) > 1 {
 		label, _ = args[1].(string)
 	}
-	in.path.asserts++
 	switch c := args[0].(type) {
 	case bool:
+		in.path.asserts++
 		if !c {
 			in.ensureModel()
 			panic(pathEnd{kind: endViolation, label: label, msg: "assertion failed: " + label})
 		}
 	case *Term:
 		p := in.path
+		if p.pos >= len(p.prefix) || in.cfg.Replay != nil {
+			p.asserts++
+		}
+		if p.pos < len(p.prefix) && in.cfg.Replay == nil {
+			// still following the prefix: this assertion was discharged by the ancestor path
+			// under the same path condition
+			p.assertsSkipped++
+			return nil
+		}
 		if p.model != nil && Eval(c, p.model, p.memo) == 0 {
 			panic(pathEnd{kind: endViolation, label: label, msg: "assertion failed: " + label})
 		}
